@@ -7,7 +7,8 @@ def sh(cmd):
     return subprocess.run(cmd, shell=True, stdout=subprocess.PIPE, stderr=subprocess.STDOUT, text=True)
 FIXES = [("4892530", "D1", ["C02", "C03", "C07", "C06", "C14"]), ("4a57934", "D2", ["C02", "C13", "C01"]),
          ("e2d3bbd", "D3", ["C08"]), ("3c8b6aa", "D4", ["C04", "C08"]), ("189f121", "D7", ["C16", "C17"]),
-         ("685599a", "D8", ["C17"]), ("9ae43e2", "D9", ["C19"]), ("cbc39a5", "D10", ["C16"])]
+         ("685599a", "D8", ["C17"]), ("9ae43e2", "D9", ["C19"]), ("cbc39a5", "D10", ["C16"]),
+         ("f53a9be", "D13", ["C16", "C18"]), ("0052937", "D14", ["C16", "C17"])]
 only = sys.argv[1:]
 assert sh("git -C /repo status --porcelain").stdout.strip() == "", "/repo is not clean"
 out = {}
@@ -18,7 +19,12 @@ for f in os.listdir("/verif/evidence"):
 for commit, d, pids in FIXES:
     if only and d not in only:
         continue
-    r = sh(f"git -C /repo revert --no-commit {commit}")
+    if d == "D13":
+        # D14's commit touches neighbouring lines: "without D13" = the parser as of D10 plus D14's change
+        r = sh("git -C /repo checkout cbc39a5 -- src/asyncio_taskpool/control/parser.py && "
+               "git -C /repo apply /verif/tools/d14_on_d10.diff && git -C /repo reset -q")
+    else:
+        r = sh(f"git -C /repo revert --no-commit {commit}")
     if r.returncode != 0:
         print(d, "cannot revert cleanly:", r.stdout[-200:]); sh("git -C /repo revert --abort; git -C /repo checkout -- ."); continue
     try:
